@@ -250,5 +250,40 @@ Definition restrict (i : nat) (X M : mappings) : mappings :=
   mkMappings [nth 0 (ms_ns M) []; nth i (ms_ns M) []] (mask (ms_doc X) (ms_doc M))
     (filter_map (restr_class i (ms_classes X)) (ms_classes M)).
 
+(* the merged set with the columns a and b exchanged (namespaces and every names row) *)
+Definition swap_row (l : names) : names := [nth_name l 0; nth_name l 2; nth_name l 1].
+Definition swap_param (p : param) : param := mkParam (p_index p) (swap_row (p_names p)) (p_doc p).
+Definition swap_field (f : field) : field := mkField (f_desc f) (swap_row (f_names f)) (f_doc f).
+Definition swap_meth (m : meth) : meth :=
+  mkMeth (m_desc m) (swap_row (m_names m)) (m_doc m) (map swap_param (m_params m)).
+Definition swap_class (c : class) : class :=
+  mkClass (swap_row (c_names c)) (c_doc c) (map swap_field (c_fields c)) (map swap_meth (c_methods c)).
+Definition swap_ab (M : mappings) : mappings :=
+  mkMappings [nth 0 (ms_ns M) []; nth 2 (ms_ns M) []; nth 1 (ms_ns M) []] (ms_doc M) (map swap_class (ms_classes M)).
+
+(* every row of a (merged) set has three cells, none of them an empty name; three non-empty namespaces *)
+Definition rows_ok (M : mappings) : bool :=
+  Nat.eqb (length (ms_ns M)) 3 && forallb nonempty (ms_ns M)
+  && forallb (fun c => names_ok 3 (c_names c)
+                       && forallb (fun f => names_ok 3 (f_names f)) (c_fields c)
+                       && forallb (fun m => names_ok 3 (m_names m) && forallb (fun p => names_ok 3 (p_names p)) (m_params m))
+                                  (c_methods c))
+             (ms_classes M).
+
+(* an empty name Some [] in the second column of some class / field / method / parameter row *)
+Definition bad_row (l : names) : bool := match nth_name l 1 with Some [] => true | _ => false end.
+Definition bad_param (p : param) : bool := bad_row (p_names p).
+Definition bad_field (f : field) : bool := bad_row (f_names f).
+Definition bad_meth (m : meth) : bool := bad_row (m_names m) || existsb bad_param (m_params m).
+Definition bad_class (c : class) : bool :=
+  bad_row (c_names c) || existsb bad_field (c_fields c) || existsb bad_meth (c_methods c).
+Definition has_empty_name (M : mappings) : bool := existsb bad_class (ms_classes M).
+(* the keys of every map are pairwise distinct (the part of [wf] that does not speak about names) *)
+Definition uniq_meth (m : meth) : bool := nodupb N.eqb (map param_key (m_params m)).
+Definition uniq_class (c : class) : bool :=
+  nodupb mkeqb (map field_key (c_fields c)) && nodupb mkeqb (map meth_key (c_methods c)) && forallb uniq_meth (c_methods c).
+Definition keys_unique (M : mappings) : bool :=
+  nodupb ckeqb (map class_key (ms_classes M)) && forallb uniq_class (ms_classes M).
+
 (* inputs of Mappings::merge: well-formed (Quill/Mappings.v) and exactly two namespaces *)
 Definition wf2 (M : mappings) : bool := wf M && Nat.eqb (length (ms_ns M)) 2.
